@@ -167,7 +167,7 @@ def cmd_campaign(tier: str, verif_seed: int, workers: int) -> int:
         a = f1.result(timeout=900) + f2.result(timeout=900)
         b = f3.result(timeout=900)
         determinism['checked'] = len(items)
-        determinism['modes'] = ['two pool workers (PYTHONHASHSEED=0)', 'one pool worker, all runs in one process', 'fresh interpreter, PYTHONHASHSEED=4242']
+        determinism['modes'] = ['two pool workers (PYTHONHASHSEED=0)', 'one pool worker, all runs in one process', 'fresh interpreter, PYTHONHASHSEED=4242', 'each thread-world run additionally replayed from its recorded decision list (digest must not change)']
         not_ok: list = []
         for x, y, z in zip(a, b, fresh):
             if not (x[3] == y[3] == z[3] == 'ok'):
@@ -177,7 +177,7 @@ def cmd_campaign(tier: str, verif_seed: int, workers: int) -> int:
                 not_ok.append((x[0], x[1]))
                 continue
             determinism['compared'] += 1
-            if not (x[2] == y[2] == z[2]):
+            if not (x[2] == y[2] == z[2]) or str(x[2]).startswith('REPLAY-MISMATCH'):
                 determinism['mismatches'].append({'run': x[:2], 'digests': [x[2], y[2], z[2]]})
         if determinism['mismatches']:
             harness_problem = f'NONDETERMINISM: {determinism["mismatches"][:3]}'
